@@ -34,6 +34,32 @@ Theorem C06_decode_encode : forall (v : jvalue) (ind : N),
 Proof. exact decode_encode. Qed.
 Print Assumptions C06_decode_encode.
 
+(* The same with float tokens: every value whose float tokens the reader
+   accepts (float_token_ok: a JSON number in range) reads back as itself,
+   except that a token denoting an int64 integer comes back as that integer
+   (reclass) - exactly what setScalarFromJson does. *)
+Theorem C06_decode_encode_floats : forall (v : jvalue) (ind : N),
+  rt_domain_f v = true -> parse_json (enc_top ind v) = Ok (reclass v).
+Proof. exact decode_encode_f. Qed.
+Print Assumptions C06_decode_encode_floats.
+
+(* Floats by value, under the contract of the float printer (strconv /
+   goccy shortest round-trip formatting: the printed token is a number that
+   ParseFloat maps back to the same binary64; a premise, validated on every
+   run): the !!float scalar with text x becomes a JSON token that denotes the
+   binary64 ParseFloat gives for x ([go_parse_float], [token_value]: exact
+   correctly rounded decimal -> binary64 in the model), and that token reads
+   back (as itself, or as the int64 integer it denotes). *)
+Theorem C06_float_value_exact :
+  forall (fmt : f64 -> res str),
+  (forall f t, fmt f = Ok t -> float_token_ok t = true /\ token_value t = Some f) ->
+  forall (x : str) (v : jvalue) (ind : N),
+  to_json (ff_of fmt) (NScalar t_float x) = Ok v ->
+  exists f t, go_parse_float x = Some f /\ token_value t = Some f
+              /\ parse_json (enc_top ind v) = Ok (reclass (JFloat t)).
+Proof. exact float_through_json. Qed.
+Print Assumptions C06_float_value_exact.
+
 (* Strings: any byte string reads back as itself with ill-formed UTF-8
    replaced by U+FFFD, and a well-formed one is unchanged. *)
 Theorem C06_string_exact : forall (s : str) (ind : N),
@@ -107,4 +133,24 @@ Proof.
                                                JBool true; JNull; JArr []; JObj [] ]) ]).
   split; [vm_compute; reflexivity|]. split; [vm_compute; reflexivity|].
   split; [cbn; tauto|vm_compute; reflexivity].
+Qed.
+
+(* non-vacuity of the float contract: a printer that knows one value *)
+Example C06_float_example :
+  let fmt := fun f : f64 => match f with
+                            | (neg, m, e) => if negb neg && (m =? 6755399441055744)%N && (e =? -52)%Z
+                                             then Ok (str_of_string "1.5") else Err EFloat
+                            end in
+  (forall f t, fmt f = Ok t -> float_token_ok t = true /\ token_value t = Some f)
+  /\ to_json (ff_of fmt) (NScalar t_float (str_of_string "+1_5.0e-1")) = Ok (JFloat (str_of_string "1.5"))
+  /\ parse_json (enc_top 2 (JArr [JFloat (str_of_string "1.5"); JFloat (str_of_string "1e3")]))
+     = Ok (JArr [JFloat (str_of_string "1.5"); JInt 1000]).
+Proof.
+  cbv zeta. split; [|split; vm_compute; reflexivity].
+  intros [[neg m] e] t H.
+  destruct (negb neg && (m =? 6755399441055744)%N && (e =? -52)%Z) eqn:E; [|discriminate].
+  injection H as <-.
+  apply andb_prop in E as [E E3]. apply andb_prop in E as [E1 E2].
+  apply N.eqb_eq in E2. apply Z.eqb_eq in E3. destruct neg; [discriminate|]. subst m e.
+  split; vm_compute; reflexivity.
 Qed.
